@@ -12,6 +12,8 @@ Models (transcriptions of the code as it is, file:line in the model files):
                            the `execute` loop's interrupt poll
   `GluonModel.MarkDepth`   vm/src/gc.rs `GcPtr::trace` — native recursion depth of marking
   `GluonModel.Generated.AllocSites` every use of `alloc_ignore_limit`, the comparisons of the checks
+  `GluonModel.TailPos`     vm/src/compiler.rs `compile_`/`compile_primitive` — which calls become `TailCall`
+  `GluonModel.Generated.TailContexts` how every construct hands `tail_position` on, extracted from the source
 Only property theorems live here; lemmas are in `GluonModel.Proofs.*`.
 -/
 import GluonModel.GcAccount
@@ -19,6 +21,9 @@ import GluonModel.StackVerify
 import GluonModel.CallStack
 import GluonModel.MarkDepth
 import GluonModel.Generated.AllocSites
+import GluonModel.Generated.TailContexts
+import GluonModel.TailPos
+import GluonModel.Proofs.TailPos
 import GluonModel.Proofs.GcAccount
 import GluonModel.Proofs.StackVerify
 import GluonModel.Proofs.CallStack
@@ -292,6 +297,60 @@ theorem interrupt_unrequested (flag : Nat → Bool) (hf : ∀ j, flag j = false)
 example : execute (fun i => decide (3 ≤ i)) 0 10 = (3, .interrupted) := by decide
 
 end Frames
+
+/-! ## Which calls are tail calls -/
+section TailPositions
+open GluonModel.TailPos
+
+/-- The compiler's propagation of `tail_position` (model `flags`, transcribed from `compile_` /
+    `compile_primitive`) marks a call `TailCall` EXACTLY when every step from the function body down
+    to the call goes through a tail context of the language — body of `let` (incl. `rec` groups),
+    alternative of `match`/`if`, right operand of `&&` / `||`, a cast — for every expression shape. -/
+theorem tail_flags_characterised (e : E) :
+    bodyFlags e = (paths e).map isTailPath := by
+  have hg : Proofs.g true = isTailPath := by funext p; simp [Proofs.g]
+  rw [bodyFlags, Proofs.flags_eq true e, hg]
+
+/-- A sub-expression compiled outside tail position never contains a `TailCall`: no frame is
+    dropped while its caller still needs it. -/
+theorem non_tail_context_never_tail_calls (e : E) : ∀ b ∈ flags false e, b = false :=
+  Proofs.flags_false_all_false e
+
+/-- The tail contexts, exhaustively. -/
+theorem tail_context_inherits_iff (c : Ctx) :
+    c.inherits = true ↔ c ∈ [Ctx.letBody, Ctx.recBody, Ctx.andR, Ctx.orR, Ctx.alt, Ctx.cast] := by
+  cases c <;> decide
+
+/-- What vm/src/compiler.rs does per construct, as extracted on every run: exactly `let` body,
+    `match` alternatives, `&&` rhs, `||` rhs, casts (and the hand-over to `compile_primitive` /
+    `emit_call`) inherit `tail_position`; every other operand is compiled with `false`; function
+    and module bodies start with `true`; `emit_call` selects `TailCall` on the flag.  A construct
+    that stops (or starts) handing the flag on changes the generated table. -/
+theorem tail_contexts_documented :
+    Generated.TailContexts.table =
+      [("let", "bind_expr", "false"), ("let", "closure.expr", "false"), ("let", "return:body", "tail_position"),
+       ("call", "compile_primitive", "tail_position"), ("call", "arg", "false"), ("call", "func", "false"),
+       ("call", "arg", "false"), ("call", "emit_call", "tail_position"),
+       ("match", "scrutinee", "false"), ("match", "Call(2)", "false"), ("match", "alt.expr", "tail_position"),
+       ("data", "expr", "false"), ("cast", "return:expr", "tail_position"),
+       ("and", "lhs", "false"), ("and", "rhs", "tail_position"),
+       ("or", "lhs", "false"), ("or", "rhs", "tail_position"),
+       ("binop", "Call(2)", "false"), ("binop", "lhs", "false"), ("binop", "rhs", "false"),
+       ("lambda", "body", "true"), ("module", "expr", "true")] ∧
+    Generated.TailContexts.emitCallSelectsOnFlag = true := by
+  exact ⟨rfl, rfl⟩
+
+/-- `rec let search i n = i #Int== n || search (i #Int+ 1) n`: the recursive call in the right
+    operand of `||` is a tail call … -/
+example : bodyFlags (.orE (.binE .atom .atom) (.call .atom (.cons (.binE .atom .atom) (.cons .atom .nil)))) = [true] := by
+  decide
+/-- … and the same call as the LEFT operand, or as an argument, is not. -/
+example : bodyFlags (.orE (.call .atom (.cons .atom .nil)) .atom) = [false] := by decide
+example : bodyFlags (.call .atom (.cons (.call .atom (.cons .atom .nil)) .nil)) = [false, true] := by decide
+example : bodyFlags (.matchE (.call .atom .nil) (.cons true (.call .atom .nil) (.cons false (.letE (.call .atom .nil) (.andE .atom (.call .atom .nil))) .nil)))
+    = [false, false, true, false, true] := by decide
+
+end TailPositions
 
 /-! ## Native stack -/
 section Native
